@@ -375,6 +375,13 @@ func genC16(t *rapid.T) c16Scenario {
 		}
 		sc.Configs = append(sc.Configs, cur)
 	}
+	if rapid.IntRange(0, 9).Draw(t, "endEmpty") < 2 {
+		// a last configuration that keeps everything but lists no server any more
+		last := cloneA(cur)
+		last.Servers = nil
+		sc.Configs = append(sc.Configs, last)
+		sc.DetourMs = 0
+	}
 	return sc
 }
 
@@ -383,6 +390,7 @@ var (
 	c16Slow     *echoUpstream
 	c16Once     sync.Once
 	c16Ups      []*echoUpstream
+	emptyChecks int // configurations ending without any server: checked a bounded number of times per process
 	graceChecks int // the 10 s close grace of removed servers is waited for a bounded number of times per process
 )
 
@@ -724,8 +732,13 @@ func execC16raw(sc c16Scenario) *vstat.Outcome {
 				out.Violate("C16", "crash", "the live process exited while configuration %d was applied: %v; last output: %v", i, err, tail(live.errorLines(), 5))
 				return out
 			}
-			out.Inconclusive = true
-			return out
+			if i == len(sc.Configs)-1 && len(cur.Servers) == 0 {
+				// no acknowledgement for the configuration without servers: whether it was applied shows below (the listeners must go away)
+				out.Class("no_acknowledgement_for_empty_server_list")
+			} else {
+				out.Inconclusive = true
+				return out
+			}
 		}
 		for _, s := range cur.Servers {
 			if !waitPort(fmt.Sprintf("127.0.0.1:%d", livePorts[s.Slot]), 15*time.Second) {
@@ -831,7 +844,12 @@ func execC16raw(sc c16Scenario) *vstat.Outcome {
 			}
 		}
 	}
-	if len(removedSlots) > 0 && os.Getenv("VERIF_C16_SKIP_GRACE") == "" && (graceChecks < 2 || len(removedSlots) >= 2 && graceChecks < 4 || vstat.Tier() == "thorough" && graceChecks < 12) {
+	lastEmpty := len(final.Servers) == 0 && (emptyChecks < 1 || vstat.Tier() == "thorough" && emptyChecks < 4)
+	if lastEmpty {
+		emptyChecks++
+		out.Class("last_configuration_has_no_server")
+	}
+	if len(removedSlots) > 0 && os.Getenv("VERIF_C16_SKIP_GRACE") == "" && (lastEmpty || graceChecks < 2 || len(removedSlots) >= 2 && graceChecks < 4 || vstat.Tier() == "thorough" && graceChecks < 12) {
 		graceChecks++
 		// removed servers stop listening (pike closes them after a 10 s grace period)
 		deadline := time.Now().Add(14 * time.Second)
